@@ -62,6 +62,8 @@ class Handle:
         self.write_bytes = {}
         self.write_cwds = set()
         self.kind_bytes = {}
+        self.config_gen = 0            # incremented when the client mutates its own config
+        self.output_files = None       # (config_gen, sorted file names) of the last complete write_output()
 
 
 class Runner(IOOpsMixin):
@@ -635,6 +637,7 @@ class Runner(IOOpsMixin):
             cfg.setdefault("output", {})[base] = []
             h.eff_output[base] = []
         self.probe("mutate_config")
+        h.config_gen += 1
         h.read_digests.pop(("calc", "config"), None)    # the client changed its own config: a later read legitimately differs
         return {}
 
@@ -717,6 +720,16 @@ class Runner(IOOpsMixin):
                 self.verdict("O-disk", "C15", client, i, f"writing the requested outputs failed although no fault was injected in this attempt: {type(e).__name__}: {norm_msg(e, self.root)[:160]}")
             raise
         self._post_write(client, i, h, expected)
+        if spec is None and "O-twice" in self.oracles:
+            names = sorted({os.path.basename(w) for w in getattr(self.seams.ctx, "writes", [])})
+            if h.output_files is not None and h.output_files[0] == h.config_gen:
+                self.probe("write_output_twice_same_config")
+                if h.output_files[1] != names:
+                    gone = sorted(set(h.output_files[1]) - set(names))
+                    new = sorted(set(names) - set(h.output_files[1]))
+                    self.verdict("O-twice", "C14", client, i, f"write_output() called again on the same calculator with an unchanged configuration wrote other files: "
+                                 f"no longer {gone[:4]}, now {new[:4]}")
+            h.output_files = (h.config_gen, names)
         cwd = self.cwd_rel[client]
         return {"_expected_files": [cwd + "/" + e["fname"] for e in expected], "n_expected": len(expected)}
 
